@@ -53,7 +53,7 @@ Proof. vm_compute. reflexivity. Qed.
    The naming style ([identify]) and LowerFirstRune ([lower_first]) are arbitrary functions: the
    theorems hold for every naming style, every feature set and every file. *)
 From Coq Require Import ZArith.
-From Verif Require Import Idl.Ast Gen.Scope Gen.ScopeFacts.
+From Verif Require Import Idl.Ast Gen.Scope Gen.ScopeFacts Gen.ScopeTypeNames.
 Close Scope string_scope.
 
 (* the table the model consults at every step is the one pkg/namespace builds from the recorded
@@ -93,6 +93,18 @@ Theorem C01_struct_members_distinct :
   NoDup (map e_id (entries_of t es)) -> NoDup (map e_name (entries_of t es)).
 Proof. exact struct_members_distinct. Qed.
 Print Assumptions C01_struct_members_distinct.
+
+(* no premise about ids: the Go type names of the struct-likes of one file (structs, unions,
+   exceptions and the synthesized <Svc><Func>Args / Result) are pairwise distinct in every
+   accepted file, because New<name> is reserved right after <name> was obtained *)
+Theorem C01_struct_type_names_distinct :
+  forall identify lower_first ft f es a e1 b e2 c,
+  scope_run identify lower_first ft f = SOk es ->
+  es = a ++ e1 :: b ++ e2 :: c ->
+  is_struct_type e1 = true -> is_struct_type e2 = true ->
+  e_name e1 <> e_name e2.
+Proof. exact struct_type_names_distinct. Qed.
+Print Assumptions C01_struct_type_names_distinct.
 
 (* any table (also the per-service method table and the per-enum value table) *)
 Theorem C01_table_distinct :
